@@ -71,7 +71,7 @@ PROPS = {
                        'finders and is checked by bounded exhaustive enumeration.',
     },
     'C03': {
-        'units': ['U2', 'U23'], 'level': 'other', 'trusted': ['A1', 'A5', 'A6', 'A7', 'A11', 'A12', 'R17'], 'bec_flavors': ['default'],
+        'units': ['U2', 'U23', 'U17'], 'level': 'other', 'trusted': ['A1', 'A5', 'A6', 'A7', 'A11', 'A12', 'R17'], 'bec_flavors': ['default'],
         'proved_part': 'Verus: prefix sums are the left fold of width+whitespace; the closure passed to SMAWK returns exactly the documented cost (per-line penalty, squared gap '
                        'except on the last line, linear overflow penalty, short-last-line penalty, hyphen penalty) over uninterpreted IEEE operations; the result is an ordered partition.',
         'bounded_part': 'BEC: minimality — cost(returned) == minimum over all 2^(n-1) arrangements in exact integer arithmetic and <= cost(first-fit), exhaustive for short '
@@ -107,7 +107,7 @@ PROPS = {
         'explanation': 'Proof: the statement is the postcondition of wrap_first_fit and wrap_optimal_fit, discharged by Verus on the extracted functions; BEC re-checks it by execution.',
     },
     'C07': {
-        'units': ['U1'], 'level': 'proof', 'kani': [K2], 'trusted': ['A1', 'A5', 'A12'],
+        'units': ['U1', 'U17'], 'level': 'proof', 'kani': [K2], 'trusted': ['A1', 'A5', 'A12'],
         'proved_part': 'Verus, all inputs: with acc = left fold of width+whitespace from 0.0 and overflows(a,i,lw) = acc + w_i + p_i > lw evaluated in f64, no non-first fragment of a '
                        'line overflowed when it was added, and the first fragment of every following line did; line k uses the k-th width, the last repeats.',
         'bounded_part': 'BEC: the same on the real function with real floats; the text-level corollary (wrap == greedy rule over the words cut at split points). '
